@@ -408,6 +408,11 @@ Theorem c04_gen_requirements_admit_windows :
 Proof. vm_compute. reflexivity. Qed.
 Print Assumptions c04_gen_requirements_admit_windows.
 
+(* the arms of get_requirements the source has now are the modelled tables (the ones the correspondence stream runs with) *)
+Theorem c04_gen_req_tables : req_tables_eqb code_req_tables (model_req_tables split_required records) = true.
+Proof. vm_compute. reflexivity. Qed.
+Print Assumptions c04_gen_req_tables.
+
 (* can_materialize of the source is the comparison the walk uses: complexity <= what is required, in declaration order *)
 Theorem c04_gen_can_materialize_is_le :
   forallb (fun a => forallb (fun b => Bool.eqb (can_materialize a b) (cx_leb code_req_tables a b)) all_cx) all_cx = true.
